@@ -249,11 +249,19 @@ ApiCfg0(g, t, m, dm, named, second) ==
                                  [] second = "none" -> CtorSvc("fx.NewB", <<>>)))]
 ApiCfgS(g, t, m, dm, named, second, sc1) == [ApiCfg0(g, t, m, dm, named, second) EXCEPT !.services["s1"].scope = sc1]
 ApiCfg(g, t, m, dm, named, second) == ApiCfg0(g, t, m, dm, named, second)
+(* getters spread over four services, every assignment of {none, GetA, GetB}: a duplicate must be found whichever pair of  *)
+(* services carries it and whatever stands between the two in name order (C13-r7-m1: only neighbours were compared)       *)
+ApiMulti(zz) ==
+  {[EmptyCfg EXCEPT !.meta = BaseMeta,
+      !.services = [s \in {"s1", "s2", "s3", "s4"} |->
+                      [CtorSvc(IF s = "s1" THEN "fx.NewA" ELSE "fx.NewB", <<>>) EXCEPT !.getter = f[s]]]] :
+     f \in [{"s1", "s2", "s3", "s4"} -> {Unset, "GetA", "GetB"}]}
 ApiCfgs(zz) == {ApiCfg(g, t, m, dm, {}, sec) : g \in ApiGetters, t \in ApiTypes, m \in Tri, dm \in Tri,
                                           sec \in {"own", "same", "todo", "none", "failing"}}
            \cup {ApiCfg(g, "*fx.T", "true", Unset, n, "own") : g \in {Unset, "GetA"}, n \in SUBSET {"pkg", "ctype", "cctor"}}
            \cup {ApiCfgS("GetA", t, m, dm, {}, sec, sc) : t \in {"*fx.T", Unset}, m \in {"true", Unset}, dm \in {"true", Unset},
                                                        sec \in {"own", "none"}, sc \in {"contextual", "non_shared"}}
+           \cup ApiMulti(0)
 (* the getter attributes of one service spread over two files: the later file wins attribute by attribute (Merge.tla), an     *)
 (* explicit false included; default_must_getter likewise                                                                    *)
 ApiFileSets(zz) ==
@@ -384,6 +392,12 @@ ImportQuads(zz) == {<<t[1], t[2], t[3], "typed">> : t \in ImportTriples(0)}
                \cup {<<t[1], t[2], t[3], "typeonly">> : t \in {x \in ImportTriples(0) : x[3] \in {x[2], INone} /\ Len(x[1]) <= 1
                                                                   /\ TypeOnlyPkg \notin {Resolve(x[1], x[2]), Resolve(x[1], x[3])}
                                                                   /\ Resolve(x[1], TypeOnlyRef) = TypeOnlyPkg}}
+(* an earlier file that gives every alias of the table another target: the alias table is the MERGED one, in which the *)
+(* later file wins key by key (Merge.tla MergeKV) - C14-r7-m1 merged meta.imports the other way round                    *)
+ShadowFile(tbl) ==
+  [EmptyCfg EXCEPT !.meta = [EmptyMeta EXCEPT !.imports =
+     [j \in 1..Len(tbl) |-> [n |-> tbl[j].n,
+                              v |-> PathText(IF tbl[j].segs = <<"probe.test", "fy">> THEN <<"probe.test", "fx">> ELSE <<"probe.test", "fy">>)]]]]
 ImportScript == <<OpGet("s1"), OpGet("s2"), OpGetParam("p1"), OpGet("s3")>> \o (IF IsSet(cfg0.services["s1"].getter) THEN <<OpGetter("GetS1")>> ELSE <<>>)
 
 -----------------------------------------------------------------------------
@@ -441,8 +455,11 @@ Init ==
           /\ files0 = <<ExtCases[i].cfg>> /\ cfg0 = ExtCases[i].cfg /\ st = NewState(ExtCases[i].cfg)
           /\ hist = <<>> /\ aux = [idx |-> i]
   ELSE IF IsImports
-  THEN \E t \in ImportQuads(0) :
-          /\ files0 = <<ImportCfg(t[1], t[2], t[3], t[4])>> /\ cfg0 = ImportCfg(t[1], t[2], t[3], t[4])
+  THEN \E t \in ImportQuads(0), shadowed \in BOOLEAN :
+          /\ shadowed => (Len(t[1]) >= 1 /\ t[4] = "typed")
+          /\ files0 = (IF shadowed THEN <<ShadowFile(t[1])>> ELSE <<>>) \o <<ImportCfg(t[1], t[2], t[3], t[4])>>
+          /\ cfg0 = MergeAll(files0)
+          /\ SameCfg(cfg0, ImportCfg(t[1], t[2], t[3], t[4]))       \* the later file's table is the effective one (Merge.tla)
           /\ st = NewStateEnv(ImportCfg(t[1], t[2], t[3], t[4]), ImportEnv(t[1], t[2], t[3]))
           /\ hist = <<>> /\ aux = ImportAux(t[1], t[2], t[3])
   ELSE \E f \in FileSets : files0 = f /\ cfg0 = MergeAll(f) /\ st = NewState(MergeAll(f)) /\ hist = <<>> /\ aux = <<>>
